@@ -78,7 +78,8 @@ def main():
     try:
         with cf.ThreadPoolExecutor(max_workers=3) as ex:
             for mid, res in ex.map(lambda m: run_one(m, run_tests, tier), muts):
-                caught = all(v.get("rc") == 1 for k, v in res.items() if isinstance(v, dict) and "rc" in v)
+                rcs = [v.get("rc") for k, v in res.items() if isinstance(v, dict) and "rc" in v]
+                caught = bool(rcs) and all(rc == 1 for rc in rcs)   # a mutant that could not be applied is not "caught"
                 if not caught:
                     missed += 1
                 print(("CAUGHT " if caught else "MISSED ") + mid, json.dumps(res))
